@@ -387,7 +387,9 @@ def check(pid, tier, seed):
             procs.append((subprocess.Popen(cmd, cwd=ROOT, env=penv, stdout=subprocess.PIPE, stderr=subprocess.STDOUT, text=True), cases, stats))
         for pr, cases, stats in procs:
             o, _ = pr.communicate()
-            if pr.returncode != 0:
+            if pr.returncode == 66 and eng.get("race") and os.path.exists(cases) and os.path.exists(stats):
+                pass   # the race detector's exit code: races were reported; the lines carry races=N and are judged below
+            elif pr.returncode != 0:
                 bad.append((ename, f"{ename} <generator crashed rc={pr.returncode}> {o[-800:]!r}", "E crash"))
                 continue
             all_lines += [l.rstrip("\n") for l in open(cases)]
@@ -481,7 +483,8 @@ def search(pid, cfg, ename, line, wd, seed, findings):
     for k in range(4):
         cases = os.path.join(wd, f"search.{k}.cases")
         stats = os.path.join(wd, f"search.{k}.stats")
-        rc, o = corr_gen(ename, seed * 7919 + k + 1, 50000, "thorough", cases, stats, arg="focus=" + focus)
+        n_search = next((e.get("search_n", 50000) for e in cfg["engines"] if e["name"] == ename), 50000)
+        rc, o = corr_gen(ename, seed * 7919 + k + 1, n_search, "thorough", cases, stats, arg="focus=" + focus)
         if rc != 0:
             continue
         lines = [l.rstrip("\n") for l in open(cases)]
